@@ -239,7 +239,11 @@ def run_entry(entry, n, seed, acc, tier, checker=None, **gkw):
             delims = ch.choice([('|', '!', '>', '`'), ('\n', '|', '\\', '`'), ('\x1c', '\x1d', '\x1e', '\x1f')])
             kw.update(avoid=''.join(delims), hostile_values=['A~B', 'A*B', 'A:B', 'X*Y*Z', 'P:Q'], flavor='punct',
                       kinds=['too-long', 'not-in-code-list', 'wrong-char-class', 'extra-element', 'too-short', 'bad-date', 'required-removed'])
-        res = genfaulty.build(entry, ch, acc, **kw)
+        if not delims and ch.chance(.1):
+            # groups of different maps (acknowledgement groups among them) in one interchange
+            res = genfaulty.build_mixed(ch, acc, max_faults=2, envelope=kw.get('envelope', 0.0))
+        else:
+            res = genfaulty.build(entry, ch, acc, **kw)
         if res is None:
             return {'skip': 'genfail'}
         doc, exps = res
@@ -263,5 +267,5 @@ def shards(tier, seed):
 
 def run_shard(spec, seed, tier):
     acc = core.Acc()
-    run_entry(spec['entry'], spec['n'], seed * 1000 + spec['i'], acc, tier, envelope=.35, by_set=.2, twin_sets=.25)
+    run_entry(spec['entry'], spec['n'], seed * 1000 + spec['i'], acc, tier, envelope=.35, by_set=.2, twin_sets=.25, cluster=.15)
     return acc
